@@ -518,7 +518,25 @@ func (m *Master) finish() int {
 		}
 		ok, why := true, ""
 		if !v.Precise {
-			ok, why = m.confirm(v, 5)
+			// the smallest counterexample first; if it does not reproduce from its own payload in a
+			// fresh process (it may have failed only because of cases run before it in the same worker),
+			// other counterexamples with the same signature are tried — a payload that carries its own
+			// history reproduces
+			tried := 0
+			for _, cand := range vs {
+				if tried >= 8 {
+					break
+				}
+				tried++
+				if ok1, why1 := m.confirm(cand, 1); !ok1 {
+					ok, why = false, why1
+					continue
+				}
+				if ok, why = m.confirm(cand, 4); ok {
+					v = cand
+					break
+				}
+			}
 		}
 		if !ok {
 			// Not reproducible from its own payload in a fresh process.  If some other violation of
